@@ -80,9 +80,15 @@ namespace
     };
 } // namespace
 
-VF_SUITE(keys_exhaustive, c15::exh_count, c15::exh_run<XTerm>)
+VF_SUITE(keys_exhaustive, c15::exhA_count, c15::exhA_run<XTerm>)
+VF_SUITE(keys_exhaustive7, c15::exhB_count, c15::exhB_run<XTerm>)
 VF_SUITE(keys_random, c15::rnd_count, c15::rnd_run<XTerm>)
 VF_SUITE(sline_exhaustive, c15::slexh_count, c15::slexh_run<XSline>)
 VF_SUITE(sline_random, c15::slrnd_count, c15::slrnd_run<XSline>)
 
 extern "C" void vf_setup() { c15::require_common(); }
+
+// Millions of short cases allocate and free a handful of small blocks each; with the default 256 MiB quarantine
+// every worker keeps touching fresh pages (page-fault bound).  Use-after-free is not what this property is about
+// (nothing is freed while a line editor is in use); overflow detection does not depend on the quarantine.
+extern "C" const char *__asan_default_options() { return "quarantine_size_mb=8:thread_local_quarantine_size_kb=64"; }
